@@ -56,3 +56,16 @@ def assess(seq, ratios=(1.0,), overrides=None, G=None, single=False, layout='pla
         out.append({'ram': float(ram[i]), 'raj': float(raj[i]), 'ram_inf': bool(ri[i] if len(ri) == n else ri[0]), 'raj_inf': bool(ji[i] if len(ji) == n else ji[0])})
     extra = {k: res[k] for k in res if 'lifetime_N_' in k}
     return out, extra
+
+
+def full(seq, ratios=(1.0,), overrides=None, G=None, layout='plain'):
+    """The complete result dictionary of the P_RAJ assessment of a batch (incl. the hysteresis collective with the crack-opening columns)."""
+    from pylife.strength.fkm_nonlinear.assessment_nonlinear_standard import perform_fkm_nonlinear_assessment
+    p = dict(BASE)
+    if overrides:
+        p.update(overrides)
+    if G is not None:
+        p['G'] = pd.Series(list(G), index=pd.Index(range(len(G)), name='node_id'))
+    with warnings.catch_warnings(), contextlib.redirect_stdout(io.StringIO()):
+        warnings.simplefilter('ignore')
+        return perform_fkm_nonlinear_assessment(pd.Series(p), load_series(seq, ratios, layout), calculate_P_RAM=False, calculate_P_RAJ=True)
